@@ -187,18 +187,23 @@ def run_one(choices, params):
                             raise core.Violation("misdelivered", "tok=%d got Custom%r" % (t, e.args))
                         return
                     raise core.Violation("misdelivered", "tok=%d what=%s unexpected %s: %s" % (t, what, type(e).__name__, e))
-                if what in ("value", "big"):
-                    ok = r[:2] == ("v", t)
-                elif what == "ref":
-                    ok = r.tok() == t
-                elif what == "mixed":
-                    ok = r[0] == t and r[1].tok() == t and r[2][0] == 1 and r[2][1][0] == t
-                elif what == "nested":
-                    ok = r[0] == "n" and r[1] == t
-                elif what in BAD:
+                if what in BAD:
                     raise core.Violation("wrong-outcome", "tok=%d what=%s returned %r instead of raising" % (t, what, type(r)))
-                else:
-                    ok = False
+                try:
+                    if what in ("value", "big"):
+                        ok = r[:2] == ("v", t)
+                    elif what == "ref":
+                        ok = r.tok() == t
+                    elif what == "mixed":
+                        ok = r[0] == t and r[1].tok() == t and r[2][0] == 1 and r[2][1][0] == t
+                    elif what == "nested":
+                        ok = r[0] == "n" and r[1] == t
+                    else:
+                        ok = False
+                except EOFError as e:
+                    raise core.Violation("connection-lost", "tok=%d what=%s: using the returned value: EOFError %s" % (t, what, e))
+                except Exception as e:
+                    raise core.Violation("misdelivered", "tok=%d what=%s: using the returned value raised %s: %s" % (t, what, type(e).__name__, e))
                 if not ok:
                     raise core.Violation("misdelivered", "tok=%d what=%s got %r" % (t, what, r))
 
